@@ -93,6 +93,30 @@ DESC = {
                 "Purl with a nuget name (or a pypi name without '-', '_', '.') that has an ASCII upper-case letter before a non-ASCII one: the value changes on a JSON round trip"),
     "r3c16-4": ("C16", "The visitor parses as GenericPurl<String> and then only resolves the type, so PackageType::finish never runs when deserialising.",
                 "Purl with a non-canonical or type-invalid input string (maven without namespace, unnormalised nuget / pypi names)"),
+    "r4c12-1": ("C12", "Qualifiers::remove uses swap_remove on the sorted vector that every look-up binary-searches.",
+                ">= 3 qualifiers, 'checksum' sorting late, and a qualifier that is not one of the last two removed before build(): build() no longer finds the checksum, so it is never canonicalised and get(\"checksum\") returns None"),
+    "r4c12-2": ("C12", "decode_qualifiers splits 'k=v' with rsplit_once('=').",
+                "an algorithm name containing '=' spelled literally (also in the crate's own to_string() output): the PURL is refused while the %3D spelling still works"),
+    "r4c12-3": ("C12", "Checksum::insert_raw (and so insert) treats an empty hex value as 'unset' and calls the case-sensitive remove.",
+                "an entry with empty bytes inserted through the typed API: it disappears from the text form and from get; insert(\"MD5\", []) leaves an old md5 value in place"),
+    "r4c12-4": ("C12", "copy_as_lowercase's ASCII fast path breaks too early: from the first non-ASCII byte on only non-ASCII characters are checked.",
+                "an ASCII capital that first appears after a non-ASCII character, in a name without non-ASCII capitals (résumé-SHA, ßX, 漢字Sum)"),
+    "r4c14-1": ("C14", "Qualifiers::retain became an index loop that still advances the index after remove(index).",
+                "two empty-valued qualifiers that are neighbours in key order after the hook: the second one survives"),
+    "r4c14-2": ("C14", "Same as r4c12-1, written independently: Qualifiers::remove uses swap_remove.",
+                ">= 3 qualifiers and a hook or builder call that removes one that is neither last nor last-but-one"),
+    "r4c14-3": ("C14", "copy_as_lowercase stops at the first cased character.",
+                "a checksum algorithm name with an ASCII upper-case letter before a non-ASCII cased letter (GOST-Э)"),
+    "r4c14-4": ("C14", "Qualifier key look-up folds case with b | 0x20 (which maps '_' to 0x7F), and check_qualifier_key treats any key without upper-case letters as Lower, which hides it for keys like repository_url.",
+                "a key spelling with both an upper-case letter and '_', used on an entry that already exists: insert(\"Download_URL\", v) adds a second download_url entry"),
+    "r4c16-1": ("C16", "Same as r4c12-1, written independently: Qualifiers::remove uses swap_remove.",
+                "a builder-made value with >= 3 qualifiers from which one that is not among the last two was removed: it serialises with unsorted keys and deserialises to a sorted, unequal value"),
+    "r4c16-2": ("C16", "Same as r4c12-2, written independently: decode_qualifiers splits at the last '='.",
+                "a qualifier value containing '=': the serialised form of a valid PURL is refused"),
+    "r4c16-3": ("C16", "decode_subpath's filter 'simplified' to segment.trim_matches('.').is_empty(), which also drops segments of three or more dots.",
+                "a subpath segment consisting only of dots (Go's cmd/...)"),
+    "r4c16-4": ("C16", "'Already sorted, so append' fast path in decode_qualifiers that compares the raw input keys although the list is ordered by lower-cased keys.",
+                "an input in ascending byte order where an upper-case key precedes a key that sorts before its lower-cased form (?Distro=..&arch=..): the parsed value has unsorted (or duplicate) qualifiers and does not survive its own serialised form"),
 }
 
 
@@ -111,6 +135,7 @@ def main():
     first = table(os.path.join(ROOT, "RESULTS-first-version.tsv"))
     before2 = table(os.path.join(ROOT, "RESULTS-round2-before-strengthening.tsv"))
     before3 = table(os.path.join(ROOT, "RESULTS-round3-before-strengthening.tsv"))
+    before4 = table(os.path.join(ROOT, "RESULTS-round4-before-strengthening.tsv"))
     for name, (prop, what, needs) in sorted(DESC.items()):
         d = os.path.join(ROOT, name)
         if not os.path.isdir(d):
@@ -120,10 +145,11 @@ def main():
         f = first.get(name, {})
         b2 = before2.get(name, {})
         b3 = before3.get(name, {})
+        b4 = before4.get(name, {})
         meta = {
             "id": name,
             "property_broken": prop,
-            "origin": f"fresh sub-agent '{name.split('-')[0]}', change #{name.split('-')[1]}; it was given only the text of {prop} and a scratch worktree of /repo, nothing from /verif" + ("; round 2: it was also told which ideas round 1 had produced and asked for different ones" if name.startswith("r2") else "") + ("; round 3: it was also told which ideas rounds 1 and 2 had produced, and pointed at rarely exercised public API paths, call order, thresholds and continued use after a failure" if name.startswith("r3") else ""),
+            "origin": f"fresh sub-agent '{name.split('-')[0]}', change #{name.split('-')[1]}; it was given only the text of {prop} and a scratch worktree of /repo, nothing from /verif" + ("; round 2: it was also told which ideas round 1 had produced and asked for different ones" if name.startswith("r2") else "") + ("; round 3: it was also told which ideas rounds 1 and 2 had produced, and pointed at rarely exercised public API paths, call order, thresholds and continued use after a failure" if name.startswith("r3") else "") + ("; round 4: told the ideas of rounds 1-3 and asked to read the code paths end to end for small-effect defects" if name.startswith("r4") else ""),
             "change": what,
             "needs_in_order_to_manifest": needs,
             "files": {"patch": "patch.diff", "demonstration": "demo.rs (drop into purl/tests/)", "author_notes": "notes.md"},
@@ -151,6 +177,11 @@ def main():
                 "verdict": r.get("verdict"),
             },
         }
+        if b4:
+            meta["checks_when_round_4_arrived"] = {
+                "note": "result with the checks at commit c0ffee (the version that met round 4; nothing was missed, a few own-property lanes were added afterwards)".replace("c0ffee", "4cb66c9"),
+                "C12": b4.get("C12"), "C14": b4.get("C14"), "C16": b4.get("C16"), "verdict": b4.get("verdict"),
+            }
         if b3:
             meta["checks_before_they_were_strengthened_for_round_3"] = {
                 "note": "result with the checks at commit 294ea8e (the version when round 3 of seeded changes was commissioned)",
